@@ -108,8 +108,10 @@ def sst_xml(strings, rng=None, pfx=""):
     out = ['<?xml version="1.0" encoding="UTF-8" standalone="yes"?><%ssst %s count="%d" uniqueCount="%d">'
            % (p, ns, len(strings), len(strings))]
     for s in strings:
-        if s == "" and rng is not None and rng.random() < 0.5:
-            out.append("<%ssi><%st/></%ssi>" % (p, p, p))
+        if s == "" and rng is not None and rng.random() < 0.8:
+            # an item without text is still an item: every spelling of it holds its index
+            out.append(rng.choice(["<%ssi><%st/></%ssi>" % (p, p, p), "<%ssi/>" % p, "<%ssi></%ssi>" % (p, p),
+                                   "<%ssi><%srPh sb=\"0\" eb=\"1\"><%st>x</%st></%srPh></%ssi>" % (p, p, p, p, p, p)]))
         else:
             out.append('<%ssi><%st xml:space="preserve">%s</%st></%ssi>' % (p, p, esc_text(s, rng), p, p))
     out.append("</%ssst>" % p)
@@ -260,7 +262,8 @@ def gen_number(rng):
     return "%de%d" % (rng.randrange(1, 999), rng.randrange(-30, 30))
 
 def gen_env(rng):
-    strings = [rng.choice(STRS) + (str(i) if rng.random() < 0.5 else "") for i in range(rng.choice([0, 1, 2, 3, 5, 12]))]
+    strings = [("" if rng.random() < 0.12 else rng.choice(STRS) + (str(i) if rng.random() < 0.5 else ""))
+               for i in range(rng.choice([0, 1, 2, 3, 5, 12]))]
     formats = "".join(rng.choice("ooodt") for _ in range(rng.choice([0, 1, 2, 3, 5])))
     return {"strings": strings, "formats": formats, "is1904": rng.random() < 0.2}
 
